@@ -123,6 +123,10 @@ func batchSize(kind string) int {
 		return 2
 	case "hh":
 		return 4
+	case "metawait":
+		return 2
+	case "cachekey":
+		return 6
 	}
 	return 1
 }
@@ -244,7 +248,7 @@ func runBatch(outDir string, idx int, b batch, tier string) []emitted {
 	var outv []emitted
 	for _, r := range res {
 		r.Obs["race"] = false
-		r.Obs["timeout"] = false
+		r.Obs["timeout"] = r.Obs["hung"] == true // a call of the real code that did not return before its deadline
 		r.Obs["panic"] = false
 		outv = append(outv, emitted{c: hx.Case{Kind: r.Desc.Kind, Coq: strings.ReplaceAll(r.Coq, "%BAD%", "false"), Desc: r.Desc,
 			Obs: r.Obs, Nontrivial: r.Nontrivial, Sig: r.Sig}, counts: r.Counts})
@@ -294,6 +298,10 @@ func deadCase(d runDesc) string {
 		return "CAuth [] true"
 	case "hh":
 		return "CHh [] true"
+	case "metawait":
+		return "CWait [] true"
+	case "cachekey":
+		return "CShard [] [] [] true"
 	}
 	return "CMeta [] true"
 }
@@ -341,6 +349,10 @@ func childMain(in, out string) {
 			r = runAuth(env, d)
 		case "hh":
 			r = runHH(env, d, i)
+		case "metawait":
+			r = runMetaWait(env, d, i)
+		case "cachekey":
+			r = runCacheKey(env, d, i)
 		default:
 			panic("unknown kind " + d.Kind)
 		}
